@@ -122,6 +122,7 @@ def opOfJson (j : Json) : Except String Op := do
   | "rm_rxns" => pure (.removeRxns (← (← (← j.getObjVal? "rs").getArr?).toList.mapM (·.getStr?)) (← (← j.getObjVal? "orphans").getBool?))
   | "imul" => pure (.imul (← s "r") (← parseRat (← s "k")))
   | "add_rxn" => pure (.addRxn (← s "r") (← parseEB (← s "lb")) (← parseEB (← s "ub")) (← pairsOf (← j.getObjVal? "st")))
+  | "remove_genes" => pure (.removeGenes (← getStrs (← j.getObjVal? "gs")) (← (← j.getObjVal? "rr").getBool?))
   | "add_rxn_r" => do
     match fromString (← s "rule") with
     | .rule g => pure (.addRxnR (← s "r") (← parseEB (← s "lb")) (← parseEB (← s "ub")) (← pairsOf (← j.getObjVal? "st")) g)
